@@ -192,7 +192,9 @@ func getNextLinebox(context *layoutContext, linebox *bo.LineBox, positionY, bott
 		// See https://github.com/Kozea/WeasyPrint/issues/583
 		line.PositionY = positionY
 
-		if line.Height.V() <= candidateHeight.V() {
+		// (written so that a height that is not a number, e.g. from a line-height
+		// overflowing to infinity, stops the loop as well)
+		if !(line.Height.V() > candidateHeight.V()) {
 			break
 		}
 		candidateHeight = line.Height
